@@ -61,7 +61,8 @@ def noise_token(rng, unsafe=False):
         return rng.choice(ALL_KEYWORDS)
     if r < 0.36:
         k = rng.choice(ALL_KEYWORDS)
-        return rng.choice([k[:-1], k + 'S', k.lower(), k + rng.choice('XYZ'), k[:rng.randint(1, len(k))]])
+        return rng.choice([k[:-1], k + 'S', k.lower(), k + rng.choice('XYZ'), k[:rng.randint(1, len(k))],
+                           k + '.', k + '{', k + '.x', k + '{a b}', k + '. ', k + '{a'])
     if r < 0.62:
         return rng.choice(MARKERS)
     if r < 0.66:
@@ -75,6 +76,25 @@ def noise_token(rng, unsafe=False):
     if r < 0.84:
         return ' '
     return ''.join(rng.choice('abcdefg XYZ') for _ in range(rng.randint(1, 6)))
+
+
+KEYWORD_TAILS = ['', ' ', '.', '{', '. text', '.text', '{x', '{x y}', '{x y} text', '.a', '.a text', '.a{b c} d', '.a.b', 'x', 'S foo',
+                 ' - h', ' 1', ' 1 - h', '{', '{}', '{ }', '.', '..', '.{', '{{', '|', '\\', ' \\']
+
+
+def keyword_lines(keywords, tails=KEYWORD_TAILS):
+    """Every keyword followed by every tail, as (a) the only line, (b) a line after a paragraph, (c) a line after an
+    indented block, (d) an indented line under a container keyword: the places where the grammar's bare-prefix guards
+    (`!attachment_marker`, `!conclusions_marker`, `!body_marker` ...) and the rules they protect must agree."""
+    out = []
+    for k in keywords:
+        for t in tails:
+            line = k + t
+            out.append(line + '\n')
+            out.append('text\n' + line + '\n')
+            out.append('PART 1\n  text\n' + line + '\nmore\n')
+            out.append('PREFACE\n  ' + line + '\nBODY\n  ' + line + '\n  x\n')
+    return out
 
 
 def noise_line(rng, unsafe=False):
@@ -126,7 +146,7 @@ def noise_marked(rng, max_lines=10):
 class DocGen:
     """Documents over the documented vocabulary (README + grammar keywords)."""
 
-    def __init__(self, rng, scripts=False, footnotes=True, max_depth=3, attrs_p=0.3, risky=False, corners=0.0):
+    def __init__(self, rng, scripts=False, footnotes=True, max_depth=3, attrs_p=0.3, risky=False, corners=0.0, scatter=None):
         self.rng = rng
         self.w = Words(rng, scripts)
         self.footnotes = footnotes
@@ -136,6 +156,30 @@ class DocGen:
         # risky = also emit constructs known to violate some property on the unchanged tree
         self.risky = risky
         self.corners = corners
+        # scatter = footnote blocks are not kept next to their reference: some come later (pending), some earlier
+        # (promised: a container holding only FOOTNOTE blocks whose references follow)
+        self.scatter = (footnotes and rng.random() < 0.3) if scatter is None else scatter
+        self.pending = []
+        self.promised = []
+
+    def fn_block(self, ind, m):
+        return ['  ' * ind + 'FOOTNOTE ' + m] + self.para_plain(ind + 1)
+
+    def flush(self, ind):
+        out = []
+        for m in self.pending:
+            out += self.fn_block(ind, m)
+        self.pending = []
+        return out
+
+    def promise(self, ind):
+        out = []
+        for _ in range(self.rng.randint(1, 2)):
+            self.fn += 1
+            m = str(self.fn)
+            self.promised.append(m)
+            out += self.fn_block(ind, m)
+        return out
 
     def words(self, n=None):
         return self.w.some(n)
@@ -214,15 +258,28 @@ class DocGen:
         if r < 0.12:
             return [p + 'P' + rnd.choice(['.x', '{class y}', '']) + ' ' + self.text()]
         if r < 0.24 and self.footnotes:
+            if self.promised and rnd.random() < 0.6:
+                return [p + self.text() + '{{FOOTNOTE %s}}' % self.promised.pop(0)]
             self.fn += 1
             m = str(self.fn)
-            return [p + self.text() + '{{FOOTNOTE %s}}' % m, p + 'FOOTNOTE ' + m] + self.para_plain(ind + 1)
+            ref = [p + self.text() + '{{FOOTNOTE %s}}' % m]
+            if self.scatter and rnd.random() < 0.6:
+                self.pending.append(m)
+                return ref
+            blk = [p + 'FOOTNOTE ' + m] + self.para_plain(ind + 1)
+            # the block may also come before the line that refers to it (it is looked up in the enclosing elements)
+            return blk + ref if rnd.random() < 0.25 else ref + blk
         return [p + self.text()]
 
     def para_plain(self, ind):
         return ['  ' * ind + self.text()]
 
     def block(self, ind, depth):
+        if self.pending and self.rng.random() < 0.25:
+            return self.flush(ind) + self.block1(ind, depth)
+        return self.block1(ind, depth)
+
+    def block1(self, ind, depth):
         rnd = self.rng
         p = '  ' * ind
         r = rnd.random()
@@ -318,7 +375,7 @@ class DocGen:
                 out.append('  ' * ind + 'CROSSHEADING ' + self.text())
             else:
                 out += self.block(ind, 0)
-        return out
+        return out + self.flush(ind)
 
     def speech(self, ind, depth):
         rnd = self.rng
@@ -385,23 +442,33 @@ class DocGen:
         else:
             if rnd.random() < 0.4:
                 out.append('PREFACE' + self.attrs())
-                if rnd.random() < 0.5 and root in ('act', 'bill'):
-                    out.append('  LONGTITLE ' + self.text())
-                for _ in range(rnd.randint(1, 2)):
-                    out += self.block(1, 1)
+                if self.scatter and rnd.random() < 0.35:
+                    out += self.promise(1)
+                else:
+                    if rnd.random() < 0.5 and root in ('act', 'bill'):
+                        out.append('  LONGTITLE ' + self.text())
+                    for _ in range(rnd.randint(1, 2)):
+                        out += self.block(1, 1)
             if rnd.random() < 0.4:
                 out.append('PREAMBLE')
-                for _ in range(rnd.randint(1, 2)):
-                    out += self.block(1, 1)
+                if self.scatter and rnd.random() < 0.35:
+                    out += self.promise(1)
+                else:
+                    for _ in range(rnd.randint(1, 2)):
+                        out += self.block(1, 1)
             if out:
                 out.append('BODY')
                 out += self.bodyitems(1)
             else:
                 out += self.bodyitems(rnd.choice([0, 1]))
-        if rnd.random() < 0.3:
+        if rnd.random() < 0.3 or (self.pending and rnd.random() < 0.5):
             out.append('CONCLUSIONS')
-            for _ in range(rnd.randint(1, 2)):
-                out += self.block(1, 1)
+            if self.pending and rnd.random() < 0.6:
+                out += self.flush(1)
+            else:
+                for _ in range(rnd.randint(1, 2)):
+                    out += self.block(1, 1)
+                out += self.flush(1)
         if rnd.random() < 0.4:
             for _ in range(rnd.randint(1, 3)):
                 out += self.attachment(0, 0)
